@@ -83,6 +83,16 @@ def writeCell (c : CellId) (v : Val) : EM Unit := fun s => .ok () { s with heap 
 def getHeap : EM Heap := fun s => .ok s.heap s
 def setHeap (h : Heap) : EM Unit := fun s => .ok () { s with heap := h }
 
+/-- a new array object holding the given cells (state-level, so that the heap stays uniquely
+    referenced and is updated in place) -/
+def allocArrM (items : Array CellId) : EM ArrId := fun s =>
+  let (a, h) := s.heap.allocArr items
+  .ok a { s with heap := h }
+
+def allocObjM (m : List (Bytes × CellId)) : EM ObjId := fun s =>
+  let (o, h) := s.heap.allocObj m
+  .ok o { s with heap := h }
+
 /-- `e.print(str)` / `fmt.Fprint(e.stdout, …)` -/
 def emit (b : Bytes) : EM Unit := fun s => .ok () { s with out := b :: s.out }
 
